@@ -98,7 +98,7 @@ def run(ctx):
     dds.set_store(store)
     inner = store.inner
 
-    def run_case(w, src, entry, expect_code, desc):
+    def run_case(w, src, entry, expect_code, desc, keep_store=False):
         modname = w.unique("c11m")
         mod = w.write_module(modname, src)
         # something already in the store
@@ -126,8 +126,9 @@ def run(ctx):
                 res.violations.append({
                     "what": "ill-formed evaluation (%s expected): outcome %s, user functions executed %s, store changed %s" % (expect_code, out, log, changed),
                     "input": {"case": desc, "source": src}, "kf": None})
-        inner._cache.clear()
-        inner._paths.clear()
+        if not keep_store:
+            inner._cache.clear()
+            inner._paths.clear()
         return out
 
     HEAD = "import dds\nfrom harness.execlog import log\n\n"
@@ -172,6 +173,18 @@ def run(ctx):
                     n_over += ov
                     run_case(w, src, lambda m: dds.eval(m.top), "OVERLAPPING_PATH" if ov else None,
                              "paths %s placement %s" % ([pstr(p) for p in order], placement))
+        # overlapping paths on a WARM store: a well-formed evaluation first (its kept function, which keeps a path inside, is then in
+        # the store), then an evaluation that shares that kept function and adds a keep at a prefix / an extension of the inner path
+        for (inner_path, extra_path) in (("/x/y", "/x"), ("/x/y", "/x/y/z"), ("/x", "/x/y"), ("/a/b/c", "/a/b")):
+            for extra_first in (False, True):
+                base_src = (HEAD + "def inner():\n    log('inner')\n    return 'i'\n\ndef other():\n    log('other')\n    return 'o'\n\n"
+                            "def outer():\n    log('outer')\n    return dds.keep(%r, inner)\n\n" % inner_path)
+                run_case(w, base_src + "def top():\n    log('top')\n    return dds.keep('/m', outer)\n", lambda m: dds.eval(m.top), None,
+                         "warm-up for overlapping paths %s %s" % (inner_path, extra_path), keep_store=True)
+                k1, k2 = "    a = dds.keep('/m', outer)\n", "    b = dds.keep(%r, other)\n" % extra_path
+                run_case(w, base_src + "def top():\n    log('top')\n" + ((k2 + k1) if extra_first else (k1 + k2)) + "    return 't'\n",
+                         lambda m: dds.eval(m.top), "OVERLAPPING_PATH",
+                         "paths /m (kept function already in the store, keeps %s inside) and %s, %s first" % (inner_path, extra_path, "extra" if extra_first else "/m"))
         res.count("e2e_overlap_programs", res.evaluations)
         # cycles of length 1..4 through each edge kind
         # (the last two: a plain call next to a lambda / a nested function whose PARAMETER has the name of the called function)
